@@ -220,6 +220,14 @@ def harnesses(tier, seed):
     hs.append(Harness("shift-binary64", 'dfverif.checks.c16', 'body_shift_fp', params={}, cfg=core.Cfg(fork_queries=True, qtimeout_ms=120000, logic='QF_FP'),
                       functions=['model.Model.shift_base'], bounds="IEEE binary64, one coordinate, |base| <= 1e9, offsets and shift in [-1,1]",
                       assumptions=["finite inputs"], expect=['shift:offsets-move-by-one-rounded-subtraction'], nproc=1))
+    # "factorisation_current must be cleared by every mutation of the point set" (so that arbitrary interleavings of replacements,
+    # resampling, swaps and shifts never meet a stale QR): C17's one-operation harnesses, from any state with the cache marked current
+    from . import c17
+    for h in c17.harnesses('quick', seed):
+        if not h.params['with_h'] and h.params['op'] in ('change_point', 'change_point_nokopt', 'add_new_sample', 'add_new_point', 'swap_points', 'shift_base'):
+            h.home = 'C17'
+            h.name = 'model:' + h.name
+            hs.append(h)
     return hs
 
 
